@@ -80,7 +80,17 @@ def rollup_check(metrics, tinfo):
         return dict(ok=False, error="%s: %s" % (type(e).__name__, str(e)[:200]))
 
 
-def make_record(gen, idx, case, d, mode, nexec, rng, hashseed, want_tree=True, want_flow=False, want_time=False):
+def strip_mapping(d, keep=("rank-order",)):
+    """the same Einsum(s) without partitioning / loop order / spacetime (the 'unmapped' reference compile)"""
+    dd = copy.deepcopy(d)
+    m = dd.get("mapping") or {}
+    dd["mapping"] = {k: v for k, v in m.items() if k in keep}
+    for k in ("architecture", "bindings", "format"):
+        dd.pop(k, None)
+    return dd
+
+
+def make_record(gen, idx, case, d, mode, nexec, rng, hashseed, want_tree=True, want_flow=False, want_time=False, reference=False):
     import specs, gens, export
     rec = dict(gen=gen, idx=idx, mode=mode, hashseed=hashseed, yaml=d, case=case, ok=False)
     c = specs.compile_spec(d, mode)
@@ -108,6 +118,13 @@ def make_record(gen, idx, case, d, mode, nexec, rng, hashseed, want_tree=True, w
         except Exception as e:
             rec["flow_error"] = "%s: %s" % (type(e).__name__, str(e)[:200])
     rec["execs"] = []
+    ref_text = None
+    if reference and case is not None:
+        import specs as _s
+        rc = _s.compile_spec(strip_mapping(d), "plain")
+        rec["reference_ok"] = rc.ok
+        rec["reference_err"] = None if rc.ok else "%s: %s" % (rc.err_kind, rc.err_msg)
+        ref_text = rc.text if rc.ok else None
     if case is not None and nexec:
         for _ in range(nexec):
             inputs = gens.rand_inputs(rng, case)
@@ -121,6 +138,13 @@ def make_record(gen, idx, case, d, mode, nexec, rng, hashseed, want_tree=True, w
                 ex["cmp"] = gens.compare(case, r, inputs) if r.ok else []
                 ex["outputs"] = {k: [[list(p), v] for p, v in pts.items()] for k, pts in r.outputs.items()}
                 ex["activities"] = len(r.rec.activities)
+                ex["act_points"] = [[len(p) if isinstance(p, tuple) else -1 for p in pts] for _, pts, _ in r.rec.activities[:2000]]
+                ex["act_stamps"] = [repr(st) for _, _, st in r.rec.activities[:2000]]
+                ex["canvas_ranks"] = [[len(t.getRankIds()) for t in c.tensors] for c in r.rec.canvases]
+                if ref_text is not None:
+                    case0 = dict(case); case0["mapping"] = {k: v for k, v in (case.get("mapping") or {}).items() if k == "rank-order"}
+                    r0 = gens.run_text(ref_text, case0, inputs)
+                    ex["reference"] = dict(ok=r0.ok, err=r0.err, outputs={k: [[list(p), v] for p, v in pts.items()] for k, pts in r0.outputs.items()})
                 if r.ok and mode == "metrics" and isinstance(r.globals.get("metrics"), dict) and "time" in rec:
                     ex["rollup"] = rollup_check(r.globals["metrics"], rec["time"])
             except Exception as e:   # harness failure, not a verdict
@@ -163,7 +187,7 @@ def worker(job, outpath):
                             continue
                         gens.add_spacetime(rng, cc, lo)
                         dd = gens.to_yaml_dict(cc)
-                    rec = make_record(gen, i, cc, dd, mode, nexec, rng, hs, want_flow=item.get("flow", False), want_time=item.get("time", False))
+                    rec = make_record(gen, i, cc, dd, mode, nexec, rng, hs, want_flow=item.get("flow", False), want_time=item.get("time", False), reference=item.get("reference", False))
                     out.write(json.dumps(rec) + "\n")
 
 
